@@ -196,3 +196,34 @@ Theorem C18_ffi_panic_propagated :
   ffi_scrypt_mem pbkdf2_1 m password password_len salt salt_len n r p derived_key dk_len = m.
 Proof. exact ffi_scrypt_panic_propagated. Qed.
 Print Assumptions C18_ffi_panic_propagated.
+
+(* the literals of scrypt.rs::scrypt, of lib.rs::scrypt and of the exported C function in the CURRENT sources
+   (tools/extract.py), tied to the model's own definitions *)
+From Kestrel.gen Require Import Extracted.
+Theorem C18_scrypt_constants :
+  (* the six asserts, in order: n > 1; n & (n-1) == 0; r*p < 2^30; r <= MAX/128/p; r <= MAX/256; n <= MAX/128/r *)
+  x_scrypt_asserts_shape_ok = 1 /\ x_scrypt_n_gt = 1 /\ x_scrypt_rp_bound = 2 ^ 30 /\ x_scrypt_rp_bound = 1073741824 /\
+  x_scrypt_usize_max = usize_max /\ x_scrypt_r_div_p = 128 /\ x_scrypt_r_div = 256 /\ x_scrypt_n_div_r = 128 /\
+  (* buffers: v = 32*n*r, x = y = 32*r words; b = 128*p*r bytes, one smix block every 128*r bytes; PBKDF2 with 1 iteration *)
+  x_scrypt_v_factor = 32 /\ x_scrypt_x_factor = 32 /\ x_scrypt_y_factor = 32 /\ x_scrypt_b_factor = 128 /\
+  x_scrypt_smix_stride = x_scrypt_b_factor /\ x_scrypt_pbkdf2_iters = [1; 1] /\
+  (* lib.rs::scrypt passes its six arguments on in order, widening n, r, p to usize *)
+  x_lib_scrypt_passthrough = [RParam 0; RParam 1; RParam 2; RParam 3; RParam 4; RParam 5] /\ x_lib_scrypt_casts_usize = 1 /\
+  (* the exported function: nine parameters, no return value; regions (password, password_len), (salt, salt_len),
+     (derived_key, dk_len); the library call and the copy into the output region *)
+  x_ffi_scrypt_arity = 9 /\ x_ffi_scrypt_has_return = 0 /\ x_ffi_scrypt_regions = [0; 1; 2; 3; 7; 8] /\
+  x_ffi_scrypt_call_roles = [RParam 0; RParam 2; RParam 4; RParam 5; RParam 6; RLenOf (RParam 7)] /\
+  x_ffi_scrypt_copies_result = 1 /\
+  (forall (pbkdf2 : bytes -> bytes -> nat -> bytes) (m : mem) (pw pwl s sl n r p dk dkl : N),
+     ffi_scrypt pbkdf2 m pw pwl s sl n r p dk dkl =
+     let g := fun i : N => nth (N.to_nat i) [pw; pwl; s; sl; n; r; p; dk; dkl] 0 in
+     match x_ffi_scrypt_regions, x_ffi_scrypt_call_roles with
+     | [p0; l0; p1; l1; p2; l2], [RParam c0; RParam c1; RParam cn; RParam cr; RParam cp; RLenOf (RParam cd)] =>
+       if ((c0 =? p0) && (c1 =? p1) && (cd =? p2))%bool then
+         obind (lib_scrypt pbkdf2 (mem_load m (g p0) (g l0)) (mem_load m (g p1) (g l1)) (g cn) (g cr) (g cp) (g l2))
+               (fun out => copy_from_slice m (g p2) (g l2) out)
+       else Panic PUnwrap
+     | _, _ => Panic PUnwrap
+     end).
+Proof. repeat split; intros; reflexivity. Qed.
+Print Assumptions C18_scrypt_constants.
